@@ -85,6 +85,27 @@ impl Row {
             None => format!("print(\"~\\n\", {} {} {})", self.a.src(), self.op, self.b.src()),
         }
     }
+    /// The operation alone, as an expression.
+    pub fn expr(&self) -> String {
+        match self.feeny {
+            Some(n) => format!("{}.{}({})", self.a.src(), n, self.b.src()),
+            None => format!("{} {} {}", self.a.src(), self.op, self.b.src()),
+        }
+    }
+    /// The same operation in places where its value is not printed directly: discarded as a
+    /// statement (top level, function body, loop body), bound by a let, passed as an argument,
+    /// stored in a field. `true` = the value is printed afterwards, `false` = only "after" is.
+    pub fn contexts(&self) -> Vec<(&'static str, String, bool)> {
+        let e = self.expr();
+        vec![
+            ("discarded-statement", format!("{}; print(\"after\\n\")", e), false),
+            ("discarded-in-function", format!("function f() -> begin {}; 0 end; f(); print(\"after\\n\")", e), false),
+            ("discarded-loop-body", format!("let i = 0; while i < 2 do begin {}; i <- i + 1 end; print(\"after\\n\")", e), false),
+            ("let-bound", format!("let r = {}; print(\"~\\n\", r)", e), true),
+            ("argument", format!("function g(v) -> v; print(\"~\\n\", g({}))", e), true),
+            ("field", format!("let o = object begin let f = {} end; print(\"~\\n\", o.f)", e), true),
+        ]
+    }
     pub fn want(&self) -> Want {
         if let (Opd::Int(i32::MIN), "%", Opd::Int(-1)) = (self.a, self.op, self.b) {
             return Want::ZeroOrFails;
@@ -192,6 +213,36 @@ fn judge_in_process(row: &Row, ctx: &mut Ctx, tag: &str) -> Judged {
         ctx.nontrivial(row.id().as_bytes());
     }
     ctx.sample(src.len(), || json!({"source": src, "expected": format!("{:?}", want), "profile": tag}));
+    Ok(())
+}
+
+/// The operation of `row` in another place of a program (see `Row::contexts`): what it yields, and
+/// whether it fails, does not depend on what is done with the value.
+fn judge_context_src(src: &str, want: &Want, printed: bool, ctx: &mut Ctx, tag: &str, id: &str) -> Judged {
+    ctx.eval();
+    let want_s = format!("{:?}", want);
+    let case = || json!({"context_source": src, "want": want_s, "printed": printed, "row": id, "where": format!("in-process engine ({} profile)", tag)});
+    let pipe = match fmlrun::pipeline(src) {
+        Ok(p) => p,
+        Err(e) => return ctx.settle(Violation::new("source-rejected", format!("{:?}", e), case())),
+    };
+    let r = fmlrun::run_stepped(&pipe.loaded, 10_000);
+    let good_out = |s: &str| if printed { r.out == s } else { r.out == "after\n" };
+    let ok = match (want, &r.exec) {
+        (Want::Prints(s), Exec::Ok) => good_out(s),
+        (Want::Fails, Exec::Fail(_)) => r.out.is_empty(),
+        (Want::ZeroOrFails, Exec::Ok) => good_out("0\n"),
+        (Want::ZeroOrFails, Exec::Fail(_)) => r.out.is_empty(),
+        _ => false,
+    };
+    if !ok {
+        return ctx.settle(
+            Violation::new("wrong-builtin-result", format!("{} in `{}` [{} profile]: expected {:?}{}, got {:?} output {:?}", id, src, tag, want, if printed { "" } else { " (value unused: a success prints only `after`)" }, r.exec, r.out), case())
+                .with("profile", tag)
+                .with("op", "context"),
+        );
+    }
+    ctx.nontrivial(src.as_bytes());
     Ok(())
 }
 
@@ -374,7 +425,7 @@ impl Property for C09 {
         "C09"
     }
     fn rule(&self) -> String {
-        "cases: (exhaustive) the 16-value boundary set squared x 11 integer operators, all boolean tables, null ==/!=, every receiver {int,bool,null,array,object without members} x argument {int,bool,null,array,object} x 13 operators; every receiver x 13 operators x both spellings called explicitly with 0, 2 and 3 arguments (must fail without output); (random) 32-bit operand pairs biased to overflow and sign edges. Each row is `print(\"~\\n\", a op b)` executed in-process in BOTH engine profiles (dev = overflow checks on, release) and, for the tables and a sample of the random rows, through the real debug AND release binaries (non-failing rows batched 100 per program, failing rows one per process). oracle: own specification over i64 (wrap modulo 2^32, truncating division, remainder with the dividend's sign, zero divisor and MIN / -1 fail, ==/!= total on primitives, strict & and |, everything else fails); MIN % -1 may print 0 or fail but must do the same in both builds. non-trivial: exact result outside i32, or a negative operand or zero divisor of / or %, or a cross-kind pair; distinct by (op, a, b) (in-process and CLI observations are counted separately)".into()
+        "cases: (exhaustive) the 16-value boundary set squared x 11 integer operators, all boolean tables, null ==/!=, every receiver {int,bool,null,array,object without members} x argument {int,bool,null,array,object} x 13 operators; every receiver x 13 operators x both spellings called explicitly with 0, 2 and 3 arguments (must fail without output); (random) 32-bit operand pairs biased to overflow and sign edges. Each row is `print(\"~\\n\", a op b)` executed in-process in BOTH engine profiles (dev = overflow checks on, release) and, for the tables and a sample of the random rows, through the real debug AND release binaries (non-failing rows batched 100 per program, failing rows one per process). oracle: own specification over i64 (wrap modulo 2^32, truncating division, remainder with the dividend's sign, zero divisor and MIN / -1 fail, ==/!= total on primitives, strict & and |, everything else fails); MIN % -1 may print 0 or fail but must do the same in both builds. non-trivial: exact result outside i32, or a negative operand or zero divisor of / or %, or a cross-kind pair; distinct by (op, a, b) (in-process and CLI observations are counted separately) Every table row and every random row is judged again with the operation in places where its value is not printed directly (discarded as a statement at the top level, in a function body and in a loop body; bound by a let; passed as an argument; stored in a field): it yields the same value, and a failing one fails there too, without output.".into()
     }
     fn assumptions(&self) -> Vec<String> {
         vec!["MIN % -1 is not listed by the statement: 0 or failure accepted, identical across builds".into()]
@@ -402,6 +453,19 @@ impl Property for C09 {
                 out.push(v);
                 if out.len() > 8 {
                     return out;
+                }
+            }
+        }
+        // every row again with its value unused, bound, passed on and stored
+        for r in &mine {
+            let want = r.want();
+            for (name, src, printed) in r.contexts() {
+                ctx.label(&format!("context-row:{}:{}", name, tag));
+                if let Err(v) = judge_context_src(&src, &want, printed, ctx, tag, &r.id()) {
+                    out.push(v);
+                    if out.len() > 8 {
+                        return out;
+                    }
                 }
             }
         }
@@ -443,13 +507,33 @@ impl Property for C09 {
         let row = random_row(&mut t);
         ctx.label(&format!("random-row:{}", tag));
         let _ = hex(tape);
-        judge_in_process(&row, ctx, tag)
+        judge_in_process(&row, ctx, tag)?;
+        // and in one of the places where the value is not printed directly
+        let cs = row.contexts();
+        let (name, src, printed) = &cs[t.byte() as usize % cs.len()];
+        ctx.label(&format!("random-context-row:{}:{}", name, tag));
+        judge_context_src(src, &row.want(), *printed, ctx, tag, &row.id())
     }
     fn replay(&self, case: &Value, ctx: &mut Ctx) -> Judged {
         if case["must_fail"].as_bool() == Some(true) {
             let src = case["source"].as_str().unwrap_or("");
             let mut sc = cli::Scratch::new("C09", "replay");
             return judge_must_fail(src, ctx, if cfg!(debug_assertions) { "dev" } else { "release" }, Some(&mut sc));
+        }
+        if let Some(src) = case["context_source"].as_str() {
+            let row = case["row"].as_str().unwrap_or("");
+            let printed = case["printed"].as_bool().unwrap_or(false);
+            let w = case["want"].as_str().unwrap_or("");
+            let want = if w == "Fails" {
+                Want::Fails
+            } else if w == "ZeroOrFails" {
+                Want::ZeroOrFails
+            } else {
+                // Prints("...") as written by {:?}: the text is a JSON-compatible string literal here
+                let inner = w.trim_start_matches("Prints(").trim_end_matches(')');
+                Want::Prints(serde_json::from_str::<String>(inner).unwrap_or_default())
+            };
+            return judge_context_src(src, &want, printed, ctx, if cfg!(debug_assertions) { "dev" } else { "release" }, row);
         }
         if let Some(src) = case["source"].as_str() {
             // re-judge the row from its source text in this engine and through both binaries
